@@ -227,9 +227,14 @@ func (m *Manager) handleDisconnect(conn *Connection, err error) {
 	defer verifhook.At("peer.disconnect.done", m, conn)
 	m.mu.Lock()
 	// Remove from peers map if this is still the active connection
-	if existing, ok := m.peers[conn.RemoteID]; ok && existing == conn {
+	existing, ok := m.peers[conn.RemoteID]
+	if ok && existing == conn {
 		delete(m.peers, conn.RemoteID)
 	}
+	// A different connection to the same peer is registered: conn has been
+	// superseded (e.g. its keepalive timed out, the peer reconnected, and only
+	// now the old read loop reports its error). The peer is not disconnected.
+	superseded := ok && existing != conn
 
 	// Find the peer info using the config address (original dial address).
 	// This is necessary because RemoteAddr() returns the resolved IP,
@@ -241,8 +246,10 @@ func (m *Manager) handleDisconnect(conn *Connection, err error) {
 	}
 	m.mu.Unlock()
 
-	// Notify callback
-	if m.cfg.OnPeerDisconnect != nil {
+	// Notify callback. The callback cleans up by peer identity (routes, relays),
+	// so it must not run for a superseded connection: that would wipe the state
+	// of the live connection.
+	if m.cfg.OnPeerDisconnect != nil && !superseded {
 		m.cfg.OnPeerDisconnect(conn, err)
 	}
 
